@@ -9,9 +9,9 @@ KNOWN = os.path.join(VERIF, "known_findings.json")
 
 
 class Obligation:
-    __slots__ = ("rule", "key", "ok", "what", "where", "detail", "cfg", "nontrivial")
+    __slots__ = ("rule", "key", "ok", "what", "where", "detail", "cfg", "nontrivial", "noverdict")
 
-    def __init__(self, rule, key, ok, what, where=None, detail=None, cfg=None, nontrivial=True):
+    def __init__(self, rule, key, ok, what, where=None, detail=None, cfg=None, nontrivial=True, noverdict=False):
         self.rule = rule
         self.key = key
         self.ok = ok
@@ -20,6 +20,7 @@ class Obligation:
         self.detail = detail
         self.cfg = cfg
         self.nontrivial = nontrivial
+        self.noverdict = noverdict      # "this rule cannot read the shape": holds vacuously, and never rescues a failure
 
     def as_json(self):
         d = {"rule": self.rule, "key": self.key, "verdict": "holds" if self.ok else "VIOLATED",
@@ -78,8 +79,9 @@ class Ctx:
     def rule(self, rule, doc):
         self.rule_docs[rule] = doc
 
-    def ob(self, rule, key, ok, what, where=None, detail=None, nontrivial=True):
-        o = Obligation(rule, key, bool(ok), what, where, detail, self.cfg, nontrivial)
+    def ob(self, rule, key, ok, what, where=None, detail=None, nontrivial=True, noverdict=False):
+        noverdict = noverdict or ("no verdict" in (what or ""))
+        o = Obligation(rule, key, bool(ok), what, where, detail, self.cfg, nontrivial, noverdict)
         self.obligations.append(o)
         return o.ok
 
@@ -203,7 +205,7 @@ def run_property(prop, tier="quick", seed=0, explain=None):
                           ("holds" if all(a.ok for a in alt) else "fails: " + json.dumps([a.detail for a in alt if not a.ok], default=str)[:1500])))
             for o in failing:
                 alt = second.get((o.cfg, o.rule, o.key))
-                if alt and all(a.ok for a in alt):
+                if alt and all(a.ok for a in alt) and not any(a.noverdict for a in alt):
                     o.ok = True
                     o.what += "  [holds with %s]" % ("newly extracted private helpers folded back" if view == "norm" else "private helpers inlined")
                     rescued += 1
